@@ -32,6 +32,7 @@ TECHNIQUE += '; totality of the message properties over None and text'
 LEVEL_TEXT += ' Added clause: every failure message renders for what raise sites hand over (None included).'
 TECHNIQUE += '; Model.expectingstr total over the number of expected elements'
 TECHNIQUE += '; constant index into a possibly empty value on the compile / parse path is guarded (C08.R17, who-may rule with a positive self-check)'
+TECHNIQUE += '; memento interpreted over texts x lines x columns: total, shows the given line, column and marker (R18)'
 LEVEL_NOTE = 'Trusted: the exception hierarchy of tatsu/exceptions.py; int()/float() raise ValueError on an empty string.'
 EXPLANATION = ('Static analysis of /repo sources, TatSu not imported. Raise sites are enumerated and classified through the static '
                'class table; scanner/consumer pairs of tatsu/input/cursor.py are analysed with the path engine and the '
